@@ -29,6 +29,7 @@ def showTreeOp : TreeOp K V → String
 def showOut : Out K V → String
   | .ok => "ok"
   | .errGas => "err gas"
+  | .errReserved => "err reserved"
   | .panic => "panic"
   | .val v => s!"val {showOpt v}"
   | .bool b => if b then "bool 1" else "bool 0"
